@@ -39,6 +39,9 @@ def run(chk):
     chk.extra["sweep_body_paths"] = paths
     e7.tdvp_composition(chk, prog.func(TDVP, "tdvp_"))
     e7.krylov_memo_keys(chk, prog)
+    chk.rule("T6", "all effective Hamiltonians Heff0/Heff1/Heff2 carry the operator's norm factor (forward and backward steps use one generator)", floor=12)
+    from . import e8
+    e8.check_heff_factor(chk, "T6")
     chk.rule("T5", "expmv returns a combination of the orthonormal Krylov basis started from v/|v|; effective operators are linear", floor=20)
     e7.check_krylov_combination(chk, "T5", prog.func("yastn.krylov._krylov", "expmv"))
     ENVM = "yastn.tn.mps._env"
@@ -59,6 +62,7 @@ MUTANTS = [
     ("constant truncated", "yastn/tn/mps/_tdvp.py", "s2 = 0.41449077179437573714", "s2 = 0.4144907717", "T2"),
     ("memo key mismatch", "yastn/tn/mps/_tdvp.py", "    env._temp['expmv_ncv'][ibd] = info['ncv']", "    env._temp['expmv_ncv'][bd] = info['ncv']", "T4"),
     ("expmv combines unnormalised start", "yastn/krylov/_krylov.py", "            v = V[0].add(*V[1:], amplitudes=F, **kwargs)", "            v = v.add(*V[1:], amplitudes=F, **kwargs)", "T5"),
+    ("Heff0 without factor", "yastn/tn/mps/_env.py", "        tmp = tensordot(self.F[bd], C @ self.F[ibd], axes=((0, 1), (0, 1)))\n        return tmp * self.op.factor", "        return tensordot(self.F[bd], C @ self.F[ibd], axes=((0, 1), (0, 1)))", "T6"),
     ("delete clear_site_ 2site", "yastn/tn/mps/_tdvp.py", "            env.clear_site_(n, n + 1)\n            env.update_env_(n + 1 - dn, to=to)", "            env.update_env_(n + 1 - dn, to=to)", "O2"),
     ("12site refresh wrong site", "yastn/tn/mps/_tdvp.py", "                env.update_env_(n + 1 - 2 * dn, to=to)", "                env.update_env_(n + 1 - dn, to=to)", "O1"),
 ]
